@@ -44,6 +44,8 @@ def run(ctx, R, tier):
                      "CommunicationError (truth table over the exception lattice)", floor=3)
     R.rule("C05-R4", "_sendExceptionResponse: serialisation of the exception is under a catch-all that substitutes a PyroError built from text", floor=2)
     R.rule("C05-R5", "every call site of Daemon._handshake is contained (lexically under a catch-all try)", floor=3)
+    R.rule("C05-R6", "the peer-controlled annotation walk makes progress: chunk lengths are decoded unsigned and the cursor advances by a positive "
+                     "constant plus the declared length (shared with C06-R3/R5)", floor=2)
 
     # ---------------------------------------------------------------- R1
     for root in ROOTS:
@@ -62,6 +64,16 @@ def run(ctx, R, tier):
                    "witness: " + " ; ".join(chain))
         R.check(True, "C05-R1", "%s|contained" % root,
                 "escape set of root computed (%d item(s), %d not exempt)" % (len(items), bad), f.loc())
+
+    # ---------------------------------------------------------------- R6 (shared with C06)
+    from ..report import Rules
+    from . import c06
+    R6 = Rules("C06")
+    c06.run(ctx, R6, tier)
+    for o in R6.obs:
+        if o.key in ("C06-R3|decoder|chunk-length-unsigned", "C06-R5|add_payload|declared-length-advance"):
+            R.add("C05-R6", o.key.split("|", 1)[1], o.desc + " (otherwise a hostile length field can keep the parse loop from terminating: "
+                  "the worker / the multiplex thread spins forever)", o.ok, o.loc, o.detail)
 
     # ---------------------------------------------------------------- R1b
     for root in ROOTS:
